@@ -26,7 +26,26 @@ ASSUMPTIONS = ["the invariant is an internal-state invariant by nature: the rust
 def gen(rng, i, tier):
     return {"seed": rng.randrange(1 << 40), "n_ops": rng.choice([5, 12, 25, 40, 60]), "p_collide": rng.choice([0.2, 0.35, 0.5]),
             "two_systems": i % 3 == 1, "no_reports": i % 2 == 1, "second_is_copy": i % 6 == 1, "reload": i % 4 == 2,
-            "zero_prelude": i % 5 == 3}
+            "zero_prelude": i % 5 == 3, "fragment_rails": i % 5 == 1}
+
+
+def _fragment_rail_ops(rng, L):
+    """Aimed calls: a rail owner keeps its name and asks for a rail that is a proper FRAGMENT of its present rail and
+    is already in use (as another component's rail or name) - the collision must be refused like any other."""
+    long_, short_ = rng.choice([("3V3_SW", "3V3"), ("A12", "A1"), ("A1", "A"), ("V3", "V"), ("B sw", "B"), ("3V3", "V3")])
+    src = [n for n, k in L["kinds"].items() if k == "Source"][0]
+    taken = set(L["names"]) | set(r for r in L["rails"].values() if r)
+    free = [n for n in ["Q1", "Q2", "Q3", "Q4"] if n not in taken]
+    owner, other = free[0], free[1]
+    kind = rng.choice(["Converter", "RLoss", "PSwitch", "LinReg"])
+    e_owner = hist.comp_entry(rng, kind, owner)
+    ops = [{"op": "add_comp", "parent": src, "comp": e_owner, "rail": long_}]
+    if rng.random() < 0.5:
+        ops.append({"op": "add_comp", "parent": src, "comp": hist.comp_entry(rng, "RLoss", other), "rail": short_})
+    else:
+        ops.append({"op": "add_comp", "parent": src, "comp": hist.comp_entry(rng, "RLoss", short_)})
+    ops.append({"op": "change_comp", "name": owner, "comp": hist.comp_entry(rng, kind, owner), "rail": short_})
+    return ops
 
 
 def _zero_prelude(rng, ns):
@@ -62,6 +81,7 @@ def run(ctx, case):
     # one system, or two systems alive side by side whose edits are interleaved (a call on one must not reach the other)
     systems = []
     aimed = []
+    frag_done = False
     for k_ in range(2 if case.get("two_systems") else 1):
         if k_ == 1 and case.get("second_is_copy"):
             import copy
@@ -95,6 +115,10 @@ def run(ctx, case):
         except Exception as e:  # the state is too broken to introspect; a previous step reported it
             ctx.count("history", "stopped: live state not introspectable (%s)" % type(e).__name__)
             break
+        if case.get("fragment_rails") and k >= 2 and not aimed and cur is systems[0] and not frag_done:
+            frag_done = True
+            aimed = _fragment_rail_ops(rng, L)
+            ctx.count("history", "aimed: rail changed to an in-use fragment of the present rail")
         op = aimed.pop(0) if aimed else hist.random_op(rng, L, p_collide=case["p_collide"])
         st, exc = hist.apply(sysobj, op, ns)
         ops.append({"op": op, "system": systems.index(cur), "outcome": "accepted" if st == "ok" else H.exc_sig(exc)})
